@@ -61,14 +61,16 @@ static std::string Build(const json& toks, bool math, bool tight) {
 }
 
 // one observed call: [fn, returned ok, #critical, positions]; `lenUnit` = admissible upper bound for positions
-struct Obs { std::string fn; bool ok; int ncritical; std::vector<int> positions; };
+struct Obs { std::string fn; bool ok; int ncritical; std::vector<int> positions; int prefix{ 0 }; };
 static Obs FromErrors(const std::string& fn, bool ok, const std::vector<Error>& errs) {
   Obs o{ fn, ok, 0, {} }; for (const auto& e : errs) { if (e.IsCritical()) ++o.ncritical; o.positions.push_back(e.position); } return o;
 }
 static Obs FromJson(const std::string& fn, const std::string& out) {
   const auto j = json::parse(out);
-  Obs o{ fn, j.at("parseResult").get<bool>(), 0, {} };
+  // the JSON analyses run the type check and then the value-class check: they succeed when both did
+  Obs o{ fn, j.at("parseResult").get<bool>() && (!j.contains("valueClass") || j.at("valueClass") != "invalid"), 0, {} };
   for (auto& e : j.at("errors")) { if (e.at("isCritical").get<bool>()) ++o.ncritical; o.positions.push_back(e.at("position").get<int>()); }
+  o.prefix = j.value("prefixLen", 0);     // CheckConstituenta analyses "<alias>:==<definition>": positions refer to that text
   return o;
 }
 
@@ -105,22 +107,62 @@ static void CheckText(const std::string& text, const json& wit, vh::Report& r, s
     catch (const json::exception& e) { r.Violation("C04", "json-exception-from-analysis", wit, { {"hint", HintName(hint)}, {"what", e.what()} }); continue; }
     for (const auto& o : obs) {
       ++r.checks;
-      if (trace) { *trace << json{ {"e", "Call"}, {"fn", o.fn}, {"hint", HintName(hint)}, {"returned", true}, {"ok", o.ok}, {"ncritical", o.ncritical}, {"positions", o.positions}, {"len", len} }.dump() << std::endl; r.Count("events"); continue; }
+      if (trace) { *trace << json{ {"e", "Call"}, {"fn", o.fn}, {"hint", HintName(hint)}, {"returned", true}, {"ok", o.ok}, {"ncritical", o.ncritical}, {"positions", o.positions}, {"len", len + o.prefix} }.dump() << std::endl; r.Count("events"); continue; }
       json w2 = wit; w2["fn"] = o.fn; w2["hint"] = HintName(hint);
       if (o.ok == (o.ncritical >= 1)) r.Violation("C04", o.ok ? "success-with-critical-error" : "failure-without-critical-error", w2, { {"ncritical", o.ncritical} });
-      for (int p : o.positions) if (p < 0 || p > len) { r.Violation("C04", "position-outside-input", w2, { {"position", p}, {"len", len} }); break; }
+      for (int p : o.positions) if (p < 0 || p > len + o.prefix) { r.Violation("C04", "position-outside-input", w2, { {"position", p}, {"len", len}, {"prefix", o.prefix} }); break; }
     }
   }
-  CallUnreported(text);
+  try { CallUnreported(text); }
+  catch (const json::exception& e) { r.Violation("C04", "json-exception-from-wrapper", wit, { {"what", e.what()} }); }
+}
+
+// ------------------------------------------------------------------ schema documents with one damaged field
+static void Damage(json& slot, const std::string& mut) {
+  if (mut == "null") slot = nullptr; else if (mut == "int") slot = 7; else if (mut == "negative") slot = -1; else if (mut == "huge") slot = 99999999999LL;
+  else if (mut == "string") slot = "X1"; else if (mut == "empty-string") slot = ""; else if (mut == "array") slot = json::array({ 1, "a" });
+  else if (mut == "object") slot = json::object({ {"x", 1} }); else if (mut == "bool") slot = true; else if (mut == "bad-enum") slot = "no-such-kind";
+  else if (mut == "junk-utf8") slot = std::string("a\x80\xFF");
+  else if (mut == "nested-deep") { json d = 1; for (int i = 0; i < 200; ++i) d = json::array({ d }); slot = d; }
+}
+static bool DamageField(json& obj, const std::string& field, const std::string& mut) {     // first occurrence at any depth
+  if (obj.is_object()) {
+    if (obj.contains(field)) { if (mut == "drop") obj.erase(field); else Damage(obj[field], mut); return true; }
+    for (auto& [k, v] : obj.items()) if (DamageField(v, field, mut)) return true;
+  }
+  return false;
+}
+static void JsonCase(const json& c, vh::Report& r) {
+  const int item = std::stoi(c["toks"][0].get<std::string>()); const std::string field = c["toks"][1], mut = c["toks"][2];
+  json doc = json::parse(C().jSchema);
+  bool applied = false;
+  if (mut == "dup-uid") { if (item >= 1 && item < static_cast<int>(doc["items"].size())) { doc["items"][item]["entityUID"] = doc["items"][item - 1]["entityUID"]; applied = true; } }
+  else if (item == 0) applied = DamageField(doc, field, mut);
+  else if (item <= static_cast<int>(doc["items"].size())) applied = DamageField(doc["items"][item - 1], field, mut);
+  if (!applied) return;
+  ++r.checks; r.Count("json-documents");
+  std::string text;
+  try { text = doc.dump(); } catch (const json::exception&) { text = doc.dump(-1, ' ', false, json::error_handler_t::ignore) + "\x80"; }
+  try {
+    auto a = api::RSFormJA::FromJSON(text);
+    const std::string j1 = a.ToJSON();
+    const std::string j2 = api::RSFormJA::FromJSON(j1).ToJSON();
+    if (j1 != j2) r.Violation("C04", "json.reload-unstable", { {"toks", c["toks"]} });
+    (void)a.CheckExpression("X1\\X1"); (void)a.CheckConstituenta("D9", "X1", "term");
+    (void)CheckSchema(text); (void)ResetAliases(text); (void)CheckExpression(text, "X1"); (void)CheckConstituenta(text, "D9", "X1", "term");
+    r.Count("json-accepted");
+  } catch (const json::exception&) { r.Count("json-rejected"); }     // the documented JSON format error
+  r.NonTrivial(c["toks"].dump());
 }
 
 static void Handle(const json& c, vh::Report& r) {
+  if (c["kind"] == "json") { JsonCase(c, r); return; }
   for (const bool math : { true, false }) for (const bool tight : { false, true }) {
     const std::string text = Build(c["toks"], math, tight);
-    CheckText(text, { {"toks", c["toks"]}, {"math", math}, {"tight", tight}, {"bytes", vh::IntVec(json(std::vector<int>(text.begin(), text.end())))} }, r, nullptr);
+    CheckText(text, { {"toks", c["toks"]}, {"math", math}, {"tight", tight}, {"bytes", [&] { json a = json::array(); for (unsigned char ch : text) a.push_back(static_cast<int>(ch)); return a; }()} }, r, nullptr);
   }
   if (c["toks"].size() >= 2) r.NonTrivial(c["toks"].dump());
-  if ((r.cases % 4999) == 11) r.Sample({ {"toks", c["toks"]}, {"math", Build(c["toks"], true, false)} });
+  if ((r.cases % 4999) == 11) r.Sample({ {"toks", c["toks"]} });
 }
 
 static int Record(const vh::Args& args) {
